@@ -73,6 +73,14 @@ def templates():
         out.append((f + "-nested-pattern", T.call(f, T.call("tolower", s),
                                                   T.call("concat", S(), T.S("k"))), False))
         out.append((f + "-pattern-tolower", T.call(f, s, T.call("tolower", S())), False))
+    for f in ("contains", "startswith", "endswith"):
+        # a list used as pattern is rendered through its repr(): the string stays inside one
+        # literal but not verbatim, so only the token skeleton is judged ("embedded")
+        out.append((f + "-list-pattern", T.call(f, T.call("trim", s), T.lst(S())), "embedded"))
+        out.append((f + "-list-pattern2", T.call(f, T.S("lit"), T.lst(T.S("k"), S())), "embedded"))
+        out.append((f + "-list-subject", T.call(f, T.lst(S(), T.S("k")), T.S("q")), False))
+    out.append(("length-list", ("cmp", "eq", T.call("length", T.lst(S(), T.S("k"))), T.I(2)), False))
+    out.append(("concat-lists", ("cmp", "eq", T.call("length", T.call("concat", T.lst(S()), T.lst(T.S("k")))), T.I(2)), False))
     out.append(("indexof-0", ("cmp", "ge", T.call("indexof", S(), T.S("k")), T.I(0)), False))
     out.append(("indexof-1", ("cmp", "ge", T.call("indexof", s, S()), T.I(0)), False))
     out.append(("substring-0", ("cmp", "eq", T.call("substring", S(), T.I(1)), u), False))
@@ -216,7 +224,7 @@ def judge(ctx, tname, tmpl, like_pos, payload, dialect, alias, cls):
             ctx.fail(case, "string content spread over several SQL literals", observed=vals,
                      keys=keys, cls=cls, sig=["spread", tname])
             return
-        if changed:
+        if changed and like_pos != "embedded":
             v = vals[changed[0]]
             core = payload if not like_pos else "".join(c for c in payload if c not in "%_\\")
             ok = (v == payload) if not like_pos else subsequence(core, v)
@@ -228,6 +236,8 @@ def judge(ctx, tname, tmpl, like_pos, payload, dialect, alias, cls):
     # executed variant (SQLite, no alias)
     if dialect == "sqlite" and alias is None and "\x00" in sql:
         ctx.count("exec_skipped_nul")   # Python's sqlite3 refuses NUL in SQL text (harness limit)
+    elif dialect == "sqlite" and alias is None and "list" in tname:
+        ctx.count("exec_skipped_list")   # list operands are not executable SQLite (row values)
     elif dialect == "sqlite" and alias is None:
         rows = [(1, 1, "x", "x"), (2, 2, payload, "k"), (3, 3, "a" + payload + "b", payload),
                 (4, 4, None, None), (5, 5, "k", "xk"), (6, 6, payload + "k", "q")]
